@@ -161,4 +161,5 @@ func c11(c *Ctx) {
 	c.headerOffsetsInRange("R11.11")
 	c.noNegativeIndex("R11.12")
 	c.mailboxNamesAreValidated("R11.13")
+	c.payloadOnlyAfterErrorCheck("R11.14")
 }
